@@ -16,7 +16,7 @@ LEVEL_TEXT = (
     'inverse permutations with matching endianness. OS timing, datagram loss and real sockets are out '
     'of scope.')
 
-FLOORS = {'C17-R1': 2, 'C17-R2': 1, 'C17-R3': 3, 'C17-R4': 2, 'C17-R5': 6, 'C17-R6': 4}
+FLOORS = {'C17-R1': 2, 'C17-R2': 1, 'C17-R3': 3, 'C17-R4': 2, 'C17-R5': 7, 'C17-R6': 4}
 
 HANDLERS = ('Actor::on_msg', 'Actor::on_timeout', 'Actor::on_random')
 
@@ -47,6 +47,22 @@ def r1_r2_r3_r5a(ctx, F):
     ctx.check(ok and len(oc) >= 2, 'C17-R1', 'start-commands-executed', b,
               good='the commands emitted by on_start are executed before the event loop',
               bad='actor::spawn: commands emitted by on_start are not executed before the first event')
+    # one event per turn: after a handler has run, its commands are applied (and the earliest
+    # deadline is looked up afresh) before any handler runs again
+    apply_heads = []
+    for c in oc:
+        hd = [x for x in b.calls_to('Iterator::next') if b.in_cycle(x.bb) and b.dominates(x.bb, c.bb)]
+        if hd:
+            apply_heads.append(max(hd, key=lambda x: len([1 for y in hd if b.dominates(y.bb, x.bb)])).bb)
+    again = []
+    for h in hs:
+        r = b.reach([h.target], cut_blocks=apply_heads) if h.target is not None else set()
+        again += [h2 for h2 in hs if h2.bb in r]
+    ctx.check(bool(apply_heads) and not again, 'C17-R5', 'one-event-per-turn', b,
+              good='between two handler calls the commands of the first are applied',
+              bad='actor::spawn: a second handler (%s) can run before the commands of the previous one were '
+                  'applied: a timer that the first handler cancels or re-arms still fires from a stale snapshot' %
+                  sorted(set(h2.short.split('::')[-1] + '@' + h2.span.split(':')[-1] for h2 in again)))
     # R2 state threading
     roots = set()
     for h in hs:
